@@ -104,6 +104,7 @@ fn case<S: Scheme>(ctx: &mut Ctx, rng: &mut ChaCha20Rng) {
 }
 
 pub fn run(ctx: &mut Ctx) {
+    crate::schemes::set_custom_params(true);
     crate::schemes::SPECIAL_POINTS.store(true, std::sync::atomic::Ordering::Relaxed);
     for_each_scheme!(ctx, S, {
         let n = ctx.n(160, 3000) / <S as Scheme>::WEIGHT.max(1);
